@@ -1,0 +1,61 @@
+//go:build verif
+
+// Executable contracts (bounded stand-ins) for package parser: evaluated by /verif on the
+// real code for every input of a finite token domain. Compiled only with -tags verif.
+package parser
+
+import (
+	"strings"
+
+	"github.com/rs/zerolog"
+
+	"github.com/coreruleset/crs-toolchain/v2/context"
+	"github.com/coreruleset/crs-toolchain/v2/regex/processors"
+)
+
+// BoundedDefinitions (C07, C03): the input is a sequence of lines (definitions of a, b, c and
+// uses). For programs without duplicate or cyclic definitions the parser's output must equal
+// the full textual substitution, must contain no definition line, and must be the same in
+// every one of 16 fresh runs (map iteration orders are sampled, not enumerated).
+//@ directive[C07,C03] bounded BoundedDefinitions quick=4 thorough=5 tokens="##!> define a x{{b}}\n" "##!> define b y{{c}}\n" "##!> define c z\n" "p{{a}}q{{b}}\n" "k{{u}}{{c}}\n"
+
+func BoundedDefinitions(in string) string {
+	zerolog.SetGlobalLevel(zerolog.Disabled)
+	defs := map[string]string{}
+	var uses []string
+	for _, l := range strings.Split(in, "\n") {
+		if l == "" {
+			continue
+		}
+		if strings.HasPrefix(l, "##!> define ") {
+			f := strings.Fields(l)
+			if _, dup := defs[f[2]]; dup {
+				return "" // duplicate definitions: outside the property's domain
+			}
+			defs[f[2]] = f[3]
+		} else {
+			uses = append(uses, l)
+		}
+	}
+	// reference result: substitute until nothing defined remains (definitions are acyclic here)
+	var want strings.Builder
+	for _, u := range uses {
+		for i := 0; i < 8; i++ {
+			for n, v := range defs {
+				u = strings.ReplaceAll(u, "{{"+n+"}}", v)
+			}
+		}
+		want.WriteString(u + "\n")
+	}
+	for run := 0; run < 16; run++ {
+		ctx := processors.NewContext(context.New("/nonexistent-root", "toolchain.yaml"))
+		p := NewParser(ctx, strings.NewReader(in))
+		out, _ := p.Parse(false)
+		if out.String() != want.String() {
+			return "run " + string(rune('0'+run%10)) + ": parser output " + strconvQuote(out.String()) + ", textual substitution gives " + strconvQuote(want.String())
+		}
+	}
+	return ""
+}
+
+func strconvQuote(s string) string { return "\"" + strings.ReplaceAll(s, "\n", "\\n") + "\"" }
